@@ -32,7 +32,7 @@ def run(chk):
     import kernpy as kp
     TC = kp.TokenCategory
     model = core.Model() if b.modelrun_ok else None
-    full = chk.tier == 'thorough' or bool(b.drift) or not b.proof_ok
+    full = chk.tier == 'thorough' or bool(b.drift) or not b.proof_ok or not b.modelrun_ok
     cells = corpus.all_grammar() + corpus.FREE_TEXT + corpus.random_strings(chk.rng, 1500 if full else 150)
     # damaged tokens: every proper prefix and every single-character deletion of the grammar's alternatives (a truncated
     # bounding box, a clef without its line ...) - the recogniser recovers from such cells in ways of its own
